@@ -141,7 +141,7 @@ fn main() {
                            "val":val,"val2":val2,"ao":ao,"ap":ap}));
             n += 1;
             // CLI sample: first / last byte of a few tokens
-            if (off as i64 == tok.s || off as i64 == tok.e - 1) && r.chance(1, 3) && sample_offs.len() < 10 {
+            if (off as i64 == tok.s || off as i64 == tok.e - 1) && r.chance(1, 3) && sample_offs.len() < 6 {
                 sample_offs.push(json!({"off":off,"ln":ln,"col":col}));
             }
         }
